@@ -1067,13 +1067,18 @@ impl StepOracle for CapsOracle {
         "C17"
     }
     fn check(&self, c: &StepCtx, out: &mut Vec<Violation>, tags: &mut Vec<&'static str>) {
-        let b = match c.a {
+        // (an action inside a flash-loan bracket of the acting account is judged like the action itself)
+        let a_eff: &Action = match c.a {
+            Action::InFlashloan { base } => base.as_ref(),
+            x => x,
+        };
+        let b = match a_eff {
             Action::Deposit { b, .. } | Action::Withdraw { b, .. } | Action::Borrow { b, .. } => *b,
             _ => return,
         };
         let bh = &c.w.banks[b];
         let Some(bank_pre) = world::try_bank(&c.pre.s, &bh.key) else { return };
-        if let Action::Deposit { up_to_limit: Some(true), .. } = c.a {
+        if let Action::Deposit { up_to_limit: Some(true), .. } = a_eff {
             if !c.res.committed && c.res.code == ERR_ASSET_CAPACITY {
                 out.push(Violation {
                     clause: "C17.up_to_limit_never_capacity_fails".into(),
@@ -1087,7 +1092,7 @@ impl StepOracle for CapsOracle {
                 });
             }
         }
-        if let Action::Deposit { up_to_limit: Some(true), .. } = c.a {
+        if let Action::Deposit { up_to_limit: Some(true), .. } = a_eff {
             if !c.res.committed && c.res.code != ERR_ASSET_CAPACITY && bank_pre.config.deposit_limit != u64::MAX {
                 // differential: the same deposit with the limit lifted; if it commits, the cap caused the failure
                 let mut t = c.pre.s.clone();
@@ -1114,7 +1119,7 @@ impl StepOracle for CapsOracle {
         }
         let Some(bank) = world::try_bank(c.post, &bh.key) else { return };
         let qn = &c.post_nums[b];
-        match c.a {
+        match a_eff {
             Action::Deposit { up_to_limit, .. } => {
                 // a clipped-to-zero up-to-limit deposit is a no-op, not a deposit
                 if bank.config.deposit_limit != u64::MAX && qn.a_sh > c.pre_nums[b].a_sh {
